@@ -154,10 +154,14 @@ CHECKS = {
  ),
  "C04": dict(
   text=("Sound (every data entry equals the reference interpretation of its key) as an invariant of every history, and evaluation over a Sound cache refines "
-        "the reference interpretation (Props/C04.lean, as far as discharged — see evidence). Correspondence: histories of evaluations / input values / extra "
-        "parameters / removals / cleans on 16 cache configurations vs the evaluator model (12 of them modelled: keep-data, replace-record and NoCache "
-        "variants); oracle: every evaluation repeated with no cache in a fresh context."),
-  note='Trusted: Lean kernel; the hand-written evaluator model LiquerModel/Eval.lean + Vocab.lean + Value.lean and the reference interpretation Ref.lean (tied to Context.evaluate/evaluate_action/evaluate_parameter/apply, parse_argv and the argument parsers by differential correspondence over generated queries and histories, not proved about Python); command signatures regenerated from the live registry; vocabulary semantics written twice; the cache is the KV specification at evaluator states (back-ends tied to it by C13); oracle harness/oracle_ref.py.',
+        "the reference interpretation (Props/C04.lean: transparent, histories, cache_vs_nocache, frame_evalQ). COMPOSITION with C13, proved: eval_via_backend / "
+        "transparent_via_backend(_hist) - the evaluator run through ANY cache back-end model that simulates the key-value specification (CSim, the conclusion of "
+        "C13's refinement theorems) with a lawful state codec returns, for every query and every history of evaluations, the outcome and the call log of the "
+        "evaluator over the abstract cache, hence the reference observation; instantiated for the MemoryCache, FileCache (any lawful codec, injective digest), "
+        "SQLCache and CacheProxy models (transparent_via_memory / _file / _sql / _proxy); never_stores_error (no store of an error state in any trace). "
+        "Correspondence: histories of evaluations / input values / extra parameters / removals / cleans on 16 cache configurations vs the evaluator model (12 "
+        "of them modelled: keep-data, replace-record and NoCache variants); oracle: every evaluation repeated with no cache in a fresh context."),
+  note='Trusted: Lean kernel; the hand-written evaluator model LiquerModel/Eval.lean + Vocab.lean + Value.lean and the reference interpretation Ref.lean (tied to Context.evaluate/evaluate_action/evaluate_parameter/apply, parse_argv and the argument parsers by differential correspondence over generated queries and histories, not proved about Python); command signatures regenerated from the live registry; vocabulary semantics written twice; the cache seen by the evaluator is the KV specification at evaluator states or (EvalVia.lean) any back-end model simulating it through a state codec (back-ends tied to the code by C13; the codec law decode(encode s) = s-as-ready is a hypothesis discharged for the model codec codecT and validated for the real state types by C11); oracle harness/oracle_ref.py.',
  ),
  "C05": dict(
   text=("served_is_fresh (= Sound over histories) and not_admitted (failed, volatile, cache-disabled results and evaluations with injected input never gain "
@@ -181,12 +185,15 @@ CHECKS = {
   note='Trusted: Lean kernel; the hand-written evaluator model LiquerModel/Eval.lean + Vocab.lean + Value.lean and the reference interpretation Ref.lean (tied to Context.evaluate/evaluate_action/evaluate_parameter/apply, parse_argv and the argument parsers by differential correspondence over generated queries and histories, not proved about Python); command signatures regenerated from the live registry; vocabulary semantics written twice; the cache is the KV specification at evaluator states (back-ends tied to it by C13); oracle harness/oracle_ref.py.',
  ),
  "C13": dict(
-  text=("Spec lemmas on the KV specification for arbitrary key strings; refinement theorems for every history: memory, file (digest injective + codec law), SQL, "
-        "combinators, conditional wrappers, proxy; store-backed cache: point operations under PathsOK (keys()/clean() statement-only; nested scheme refuted on "
-        "confusable keys = known finding D19); xor_involutive and xor_hides. Correspondence: 14 configurations x histories over confusable keys and values of "
-        "every built-in type vs the model of each configuration; oracle: Python dict reference + scan of raw files of obfuscating caches."),
-  note=("Trusted: Lean kernel; LiquerModel/Cache*.lean mirrors (as fixed by D2, D8, D9, D9b, D17, D18 commits); md5 as an injective function; Fernet as a codec law; "
-        "sqlite as a list of rows; state-type codecs as parameters."),
+  text=("Spec lemmas on the KV specification for arbitrary key strings; refinement theorems for every history of any length: memory, file (digest injective + "
+        "codec law: plain, XOR, Fernet), SQL, combinators, conditional wrappers, proxy; store-backed cache AS CONSTRUCTED (storec_refines: all eight operations "
+        "incl. keys() and clean(), flat and nested scheme, ANY cache path - the constructor drops leading slashes, fixes b0a69e7 / 39a373f found by this proof; "
+        "storec_unnormalised_false shows the statement fails if the path is kept as given) under PathsOK (paths distinct and not directories of one another; "
+        "the nested scheme violates it on confusable keys = known finding D19, storec_nested_confusion); xor_involutive and xor_hides. Correspondence: 21 "
+        "configurations (StoreCache at cache, /cache, //cache on memory and file stores) x histories over confusable keys and values of every built-in type "
+        "vs the model of each configuration; oracle: Python dict reference + scan of raw files of obfuscating caches."),
+  note=("Trusted: Lean kernel; LiquerModel/Cache*.lean mirrors (as fixed by D2, D8, D9, D9b, D17, D18 commits and b0a69e7 / 39a373f); md5 as an injective function; "
+        "Fernet as a codec law; sqlite as a list of rows; state-type codecs as parameters."),
  ),
  "C16": dict(
   text=("For the step lists of store / store_metadata / remove of FileCache (+XOR, Fernet), FileStore and StoreCache on FileStore (as fixed by the D6a/D6b commits: "
